@@ -120,8 +120,14 @@ type genState struct {
 // finishAction: the end of the execution open in queue q
 func finishAction(r *core.Rng, p Profile, g *genState, q int) Action {
 	ok := !r.Chance(p.PFail)
+	// how a failing hook process ends: mostly `exit 1`, also other statuses and death by a signal
+	// (no exit status at all: SIGKILL as the OOM killer sends it, SIGTERM); every one is a failure
+	exit := 0
+	if !ok && r.Chance(40) {
+		exit = []int{2, 137, 255, -9, -9, -15}[r.Intn(6)]
+	}
 	if !ok && p.PWait > 0 && r.Chance(p.PWait) {
-		a := Action{Kind: "FinishWait", Q: q}
+		a := Action{Kind: "FinishWait", Q: q, Exit: exit}
 		if p.PShort > 0 && r.Chance(p.PShort) && !g.stopped {
 			a.Short = true
 			if p.PStop > 0 && r.Chance(60) {
@@ -132,7 +138,7 @@ func finishAction(r *core.Rng, p Profile, g *genState, q int) Action {
 		}
 		return a
 	}
-	return Action{Kind: "Finish", Q: q, Ok: ok}
+	return Action{Kind: "Finish", Q: q, Ok: ok, Exit: exit}
 }
 
 // nextAction chooses an action that makes sense in the observable state.
